@@ -1,6 +1,6 @@
 """C12 — a failed filter insert or union leaves the filter unchanged (R12-restore)."""
 from ..paths import PathEnumerator
-from ..terms import TermBuilder, fmt, subterms
+from ..terms import TermBuilder, fmt, subterms, const
 from .common import SELF, self_field, is_self, self_field_term, rng_fields, INTERIOR_MUT, loop_exits_only_on_exhaustion
 
 EXPLANATION = (
@@ -69,9 +69,43 @@ def replay_helpers(ctx):
         rev = stream[0] == "rev" and stream[1][0] == "param" and stream[1][1] == 2
         heads = f.loop_heads()
         full = len(heads) == 1 and loop_exits_only_on_exhaustion(f, heads[0]) and bi in f.natural_loop(heads[0])
-        # the set call must be executed on every iteration: it post-dominates the loop body entry
-        out[f.key] = {"field": fld, "ok": rev and full,
-                      "why": "" if (rev and full) else ("log is not replayed in reverse order (stream %s)" % fmt(stream) if not rev else "replay loop can exit early or skip entries")}
+        # the set call must be executed on every iteration: no way round the loop from its head back to its head avoids the set block
+        every = False
+        if full:
+            body_ = f.natural_loop(heads[0])
+            seen_, todo_ = set(), [s_ for s_ in f.succs(heads[0]) if s_ in body_ and s_ != bi]
+            skipping = False
+            while todo_:
+                b_ = todo_.pop()
+                if b_ in seen_ or b_ == bi:
+                    continue
+                seen_.add(b_)
+                for s_ in f.succs(b_):
+                    if s_ == heads[0]:
+                        skipping = True
+                    elif s_ in body_ and s_ != bi:
+                        todo_.append(s_)
+            every = not skipping
+            if skipping:
+                # the only tolerated way round the write: a bounds test of the entry's own position against the table's length
+                # (`if pos < self.table.len() { set }` — a position outside the table was never logged; the unguarded write would panic)
+                from ..guards import facts_at
+                inloop = [(c_, tr_) for c_, tr_, sw_ in facts_at(f, ctx.prog, bi, tb) if sw_ in body_]
+
+                def _is_bound(c_, tr_):
+                    if c_[0] == "op" and c_[1] == "Eq" and any(z_[0] == "call" and z_[1].rsplit("::", 1)[-1] in ("next", "pop", "discriminant") for z_ in subterms(c_)):
+                        return True                  # the loop's own `Some(entry)` test
+                    if c_ == const(True) or (c_[0] == "call" and "debug_assertions" in c_[1]):
+                        return True
+                    if tr_ is True and c_[0] == "op" and c_[1] == "Lt" and len(c_[2]) == 2:
+                        l_, r_ = c_[2]
+                        l_ = l_[2] if l_[0] == "cast" else l_
+                        return l_ == pos and r_[0] == "call" and r_[1].rsplit("::", 1)[-1] == "len" and len(r_[2]) == 1 and self_field_term(r_[2][0]) == fld
+                    return False
+                every = bool(inloop) and all(_is_bound(c_, tr_) for c_, tr_ in inloop)
+        out[f.key] = {"field": fld, "ok": rev and full and every,
+                      "why": "" if (rev and full and every) else ("log is not replayed in reverse order (stream %s)" % fmt(stream) if not rev else
+                                                                  "some log entries are skipped (the write is not executed for every entry)" if full else "replay loop can exit early or skip entries")}
     return out
 
 
